@@ -1,8 +1,11 @@
 """C18 — trim and crop return the minimal window, cells / coordinates / attributes intact.
 
 Engine E1.  trim: every raster of each listed shape over {1 (kept), 0, NaN} (ints: {1, 0, 2}) x every spelling of the
-exclusion sets {NaN (default)}, {0}, {0, NaN} (ints also {0, 2}).  crop: every zones raster over {0, 1, 2} x every
-non-empty subset of the ids (as an ascending list and / or a descending tuple) on an all-distinct values raster.  Reference model (in this
+exclusion sets {NaN (default)}, {0}, {0, NaN} (ints also {2}, {0, 2}, {0, 2, NaN} in every order).  crop: every zones
+raster over {0, 1, 2} x ORDERED id lists (every permutation of every non-empty subset of the ids, as list and / or tuple; the
+3x3 space: ascending list / descending tuple per subset) on an all-distinct values raster.  *_<L> / *_z<L>_v<L> spaces: the same
+enumeration with the raster (trim) / zones and values (crop) held in memory layout L (F, T = transposed view, S = strided) on
+the non-square shapes 2x3, 3x2, 3x4.  Reference model (in this
 file, numpy only): bounding box of np.argwhere(kept); the result must be the numpy slices of that box of the
 original's cells and of each of its coordinates, with the original's dims and attrs.
 trimx spaces: every uint8 / int16 / int64 raster over three letters x exclusion sets holding numbers the raster's dtype
@@ -18,8 +21,10 @@ from ..core.space import Space
 PROPERTY = "C18"
 LEVEL = "model_checking"
 RULE = ("trim spaces: rank = (mixed-radix number of the cell letters of the raster) x (spelling of the exclusion "
-        "values); crop spaces: rank = (number of the zones raster over {0,1,2}) x (non-empty id subset as ascending list "
-        "or descending tuple); a case is non-trivial when the expected window is smaller than the raster (trimx spaces: "
+        "values); crop spaces: rank = (number of the zones raster over the zone alphabet) x (ordered id list: each "
+        "permutation of each non-empty subset of the alphabet, as list / tuple; crop_3x3: each subset once, ascending list or "
+        "descending tuple); spaces with a layout suffix (_F, _T, _S; _z<L>_v<L> for crop) hold the same logical rasters in "
+        "another memory layout; a case is non-trivial when the expected window is smaller than the raster (trimx spaces: "
         "or when a border row / column consists only of cells that are excluded or are the truncated / wrapped image, in "
         "the raster's dtype, of a listed value that no cell equals); rasters whose "
         "cells are all excluded (trim) / hold none of the ids (crop) are generated and counted but not asserted; "
@@ -27,7 +32,11 @@ RULE = ("trim spaces: rank = (mixed-radix number of the cell letters of the rast
 ASSUMPTIONS = [
     "rasters whose every cell is excluded (trim) or that hold none of the requested ids (crop) have no minimal window: "
     "not asserted (counters.*_not_asserted)",
-    "numpy-backed, C-ordered rasters; zones and values of crop have the same shape; zone ids are integers",
+    "numpy-backed rasters; zones and values of crop have the same shape; zone ids are integers",
+    "memory layout: spaces without a layout suffix pass C-contiguous arrays; the suffixed ones pass the same logical raster "
+    "as F = np.asfortranarray, T = the view returned by DataArray.transpose(*dims) of a DataArray holding the transposed "
+    "C-ordered array under the swapped dims, S = every second column of a C-ordered array twice as wide (neither C- nor "
+    "F-contiguous); the reference works on logical cell positions only",
     "the result's name and the identity/aliasing of the returned object are not asserted (only cells, dims, every "
     "coordinate and attrs)",
     "exclusion values are real numbers compared exactly: a fraction or an integer outside the raster dtype's range "
@@ -44,27 +53,49 @@ KEEP_I = (1, 0, 2)            # int rasters: no NaN
 SPELL_COMMON = [("default", lambda: OMIT, (NAN,)), ("(nan,)", lambda: (NAN,), (NAN,)),
                 ("(0,)", lambda: (0,), (0,)), ("[0]", lambda: [0], (0,)),
                 ("(0.0,nan)", lambda: (0.0, NAN), (0, NAN)), ("[nan,0.0]", lambda: [NAN, 0.0], (NAN, 0))]
-SPELL_INT = SPELL_COMMON + [("(0,2)", lambda: (0, 2), (0, 2)), ("[2,0]", lambda: [2, 0], (2, 0))]
+SPELL_INT = SPELL_COMMON + [("(0,2)", lambda: (0, 2), (0, 2)), ("[2,0]", lambda: [2, 0], (2, 0)), ("(2,)", lambda: (2,), (2,))]
+# the three-element set {0, 2, NaN} in every order (one numeric type; tuple / list alternating)
+for _i, _p in enumerate(itertools.permutations((0.0, 2.0, NAN))):
+    _lab = ("[%s]" if _i % 2 else "(%s)") % ",".join("nan" if v != v else repr(v) for v in _p)
+    SPELL_INT.append((_lab, (lambda p=_p: list(p)) if _i % 2 else (lambda p=_p: p), _p))
 SPELL_HETERO = [("(0,nan)", lambda: (0, NAN), (0, NAN)), ("(nan,0)", lambda: (NAN, 0), (NAN, 0)),
                 ("[0,nan]", lambda: [0, NAN], (0, NAN))]
 
 SMALL = 12000                 # spaces up to this size are explored as a single shard
 CORE = ("default", "(0,)", "(0.0,nan)", "(0,2)")      # one spelling per exclusion set
-# trim: (shape, dtype, 'full' = every spelling | 'core'); the alphabet follows from the dtype
+# trim: (shape, dtype, 'full' = every spelling | 'core' | 'two' = 2-letter alphabet {kept, excluded}[, memory layout]);
+# the alphabet follows from the dtype.  (3x3 f8 runs the 'core' spellings in the quick tier since the layout dimension was
+# added - every spelling x every raster runs on 1x6, 6x1, 2x3, 3x2 - and all spellings in the thorough tier.)
 TRIM = {
-    "quick": [((1, 1), "f8", "full"), ((1, 6), "f8", "full"), ((6, 1), "f8", "full"), ((3, 3), "f8", "full"),
-              ((2, 5), "f8", "core"), ((1, 6), "i8", "full"), ((6, 1), "i8", "full"), ((3, 3), "i8", "core")],
+    "quick": [((1, 1), "f8", "full"), ((1, 6), "f8", "full"), ((6, 1), "f8", "full"), ((3, 3), "f8", "core"),
+              ((2, 5), "f8", "core"), ((1, 6), "i8", "full"), ((6, 1), "i8", "full"), ((3, 3), "i8", "core"),
+              ((2, 3), "f8", "full"), ((3, 2), "f8", "full"),
+              ((2, 3), "f8", "full", "F"), ((3, 2), "f8", "full", "F"), ((2, 3), "f8", "full", "T"), ((3, 2), "f8", "full", "T"),
+              ((2, 3), "i8", "core", "F"), ((3, 2), "i8", "core", "T"),
+              ((3, 4), "f8", "two", "F"), ((3, 4), "f8", "two", "T"), ((3, 4), "i8", "two", "F")],
 }
 TRIM["thorough"] = TRIM["quick"] + [((3, 4), "f8", "core"), ((2, 5), "i8", "core"), ((3, 3), "i8", "full"),
+                                    ((3, 3), "f8", "full"),
                                     ((2, 5), "f8", "full"), ((4, 2), "i4", "full"), ((2, 4), "f4", "full"),
                                     ((3, 2), "i4", "full"), ((2, 3), "f4", "full"),
                                     ((1, 10), "f8", "core"), ((10, 1), "f8", "core"), ((1, 8), "i8", "full"),
-                                    ((8, 1), "i8", "full")]
+                                    ((8, 1), "i8", "full"),
+                                    ((2, 3), "i8", "full", "T"), ((3, 2), "i8", "full", "F"),
+                                    ((2, 3), "f8", "full", "S"), ((3, 2), "i8", "full", "S"), ((3, 4), "i8", "two", "T"),
+                                    ((3, 4), "f8", "two", "S"), ((3, 3), "f8", "core", "F"), ((2, 5), "f8", "core", "T")]
+TRIM = {t: [e if len(e) == 4 else e + ("C",) for e in v] for t, v in TRIM.items()}
+TWO = {"f": ((1, NAN), ("default", "(nan,)")), "i": ((1, 0), ("(0,)", "[0]"))}     # 'two': alphabet, spellings
 
 
 def trim_spellings(dtype, which):
     sp = SPELL_COMMON if dtype[0] == "f" else SPELL_INT
+    if which == "two":
+        return [x for x in sp if x[0] in TWO[dtype[0]][1]]
     return sp if which == "full" else [x for x in sp if x[0] in CORE]
+
+
+def trim_alphabet(dtype, which):
+    return TWO[dtype[0]][0] if which == "two" else (KEEP_F if dtype[0] == "f" else KEEP_I)
 
 
 # Python int next to a float in `values`: a separate, small set of spaces (the failure is a type-level one and every
@@ -100,26 +131,56 @@ def cast_image(e, dtype):
     return v - (1 << bits) if signed and v >= 1 << (bits - 1) else v
 
 
-# crop: (shape, zones dtype, values dtype, id spellings: 'both' = every subset as list and as tuple, 'alt' = alternating)
+# crop: (shape, zones dtype, values dtype, id lists[, (zones layout, values layout)[, zone alphabet]]).  id lists:
+# 'both' = every permutation of every non-empty subset of the alphabet (the ORDER of zones_ids is part of the case), each as
+# list and as tuple; 'perms' = every permutation, list / tuple alternating; 'alt' = each subset once, ascending list or
+# descending tuple alternating
 CROP = {
     "quick": [((1, 1), "i8", "f8", "both"), ((1, 6), "i8", "f8", "both"), ((6, 1), "f8", "i8", "both"),
-              ((3, 3), "i8", "f8", "alt"), ((2, 4), "f8", "i8", "alt")],
+              ((3, 3), "i8", "f8", "alt"), ((2, 4), "f8", "i8", "perms"),
+              ((2, 3), "i8", "f8", "perms", ("F", "F")), ((3, 2), "i8", "f8", "perms", ("F", "F")),
+              ((2, 3), "f8", "i8", "perms", ("T", "T")), ((3, 2), "f8", "i8", "perms", ("T", "T")),
+              ((3, 4), "i8", "f8", "perms", ("F", "F"), (0, 1))],
 }
 CROP["thorough"] = CROP["quick"] + [((3, 4), "i8", "f8", "alt"), ((3, 3), "f8", "f8", "both"), ((2, 5), "f8", "f8", "alt"),
                                     ((4, 2), "i4", "f4", "both"), ((3, 2), "i4", "f4", "both"),
-                                    ((1, 9), "i8", "f8", "alt"), ((9, 1), "i8", "f8", "alt")]
-ID_SETS = [s for k in (1, 2, 3) for s in itertools.combinations((0, 1, 2), k)]     # the 7 non-empty subsets
-_AS_LIST = [(repr(list(s)), (lambda s=s: list(s)), s) for s in ID_SETS]            # ascending list
-_AS_TUPLE = [(repr(tuple(reversed(s))), (lambda s=s: tuple(reversed(s))), s) for s in ID_SETS]   # descending tuple
-ID_SPELLINGS = {"both": _AS_LIST + _AS_TUPLE,
-                "alt": [(_AS_LIST if i % 2 == 0 else _AS_TUPLE)[i] for i in range(len(ID_SETS))]}
-BOUNDS = {t: {"trim": [dict(shape=list(s), dtype=d, alphabet=["1", "0", "nan"] if d[0] == "f" else ["1", "0", "2"],
-                            values=[x[0] for x in trim_spellings(d, w)]) for s, d, w in TRIM[t]],
+                                    ((1, 9), "i8", "f8", "alt"), ((9, 1), "i8", "f8", "alt"),
+                                    ((3, 3), "i4", "f8", "perms"),
+                                    ((2, 3), "i8", "f8", "perms", ("F", "C")), ((3, 2), "i8", "f8", "perms", ("C", "F")),
+                                    ((2, 3), "i8", "f8", "perms", ("C", "T")), ((3, 2), "i8", "f8", "perms", ("T", "C")),
+                                    ((2, 3), "i8", "f8", "perms", ("S", "S")), ((3, 2), "f8", "i8", "perms", ("S", "S")),
+                                    ((3, 4), "i8", "f8", "perms", ("T", "T"), (0, 1)),
+                                    ((3, 3), "i8", "f8", "alt", ("F", "F")), ((2, 4), "f8", "i8", "alt", ("T", "T"))]
+CROP = {t: [e + ((("C", "C"),) if len(e) < 5 else ()) + (((0, 1, 2),) if len(e) < 6 else ()) for e in v]
+        for t, v in CROP.items()}
+
+
+def id_spellings(alphabet, mode):
+    """[(label, fresh-argument maker, ids in the given order)]"""
+    sets = [s for k in range(1, len(alphabet) + 1) for s in itertools.combinations(alphabet, k)]
+    as_list = lambda s: (repr(list(s)), (lambda: list(s)), tuple(s))        # noqa: E731
+    as_tuple = lambda s: (repr(tuple(s)), (lambda: tuple(s)), tuple(s))     # noqa: E731
+    if mode == "alt":
+        return [as_tuple(tuple(reversed(s))) if i % 2 else as_list(s) for i, s in enumerate(sets)]
+    ordered = [p for s in sets for p in itertools.permutations(s)]
+    if mode == "perms":
+        return [as_tuple(p) if i % 2 else as_list(p) for i, p in enumerate(ordered)]
+    if mode == "both":
+        return [f(p) for p in ordered for f in (as_list, as_tuple)]
+    raise ValueError(mode)
+BOUNDS = {t: {"trim": [dict(shape=list(s), dtype=d, alphabet=[repr(float(v)) if v != v else str(v) for v in trim_alphabet(d, w)],
+                            values=[x[0] for x in trim_spellings(d, w)], layout=lay) for s, d, w, lay in TRIM[t]],
               "trim_unrepresentable": [dict(shape=list(s), dtype=d, alphabet=list(TRIMX_VALUES[d][0]),
                                             values=[x[0] for x in TRIMX_VALUES[d][1]]) for s, d in TRIMX[t]],
               "trim_spellings": [dict(shape=list(s), dtype=d, values=[x[0] for x in SPELL_HETERO]) for s, d in HETERO[t]],
-              "crop": [dict(shape=list(s), zones_dtype=zd, values_dtype=vd, zones_alphabet=[0, 1, 2],
-                            zones_ids=[x[0] for x in ID_SPELLINGS[sp]]) for s, zd, vd, sp in CROP[t]]}
+              "crop": [dict(shape=list(s), zones_dtype=zd, values_dtype=vd, zones_alphabet=list(al),
+                            zones_ids=[x[0] for x in id_spellings(al, sp)], layout_zones_values=list(lay))
+                       for s, zd, vd, sp, lay, al in CROP[t]],
+              "layouts": {"C": "C-contiguous", "F": "np.asfortranarray", "T": "DataArray.transpose(*dims) view of the "
+                          "transposed C-ordered array", "S": "every second column of a C-ordered array twice as wide"},
+              "trimmed": "quick: trim 3x3 float64 runs one spelling per exclusion set ('core', 3 of 6) instead of every "
+                         "spelling since the layout / id-order dimensions were added; every spelling x every raster runs on "
+                         "1x6, 6x1, 2x3, 3x2 (quick) and on 3x3 (thorough)"}
           for t in ("quick", "thorough")}
 
 
@@ -226,17 +287,33 @@ class _Base(Space):
         self.coords = make_coords(h, w, self.dims)
         self._cache = (None, None)
 
-    def da(self, a, attrs):
-        return self.xr.DataArray(a, dims=self.dims, coords={k: (d, v) for k, (d, v) in self.coords.items()},
-                                 attrs=dict(attrs))
+    def da(self, a, attrs, layout="C"):
+        """DataArray (dims, coordinates, attrs of the space) holding the logical raster `a` in the given memory layout."""
+        coords = {k: (d, v) for k, (d, v) in self.coords.items()}
+        if layout == "T":
+            t = self.xr.DataArray(np.ascontiguousarray(a.T), dims=self.dims[::-1], coords=coords, attrs=dict(attrs))
+            return t.transpose(*self.dims)
+        if layout == "C":
+            data = np.array(a, order="C")
+        elif layout == "F":
+            data = np.asfortranarray(a)
+        elif layout == "S":
+            wide = np.zeros((a.shape[0], 2 * a.shape[1]), dtype=a.dtype)
+            wide[:, ::2] = a
+            wide[:, 1::2] = a[:, ::-1]
+            data = wide[:, ::2]
+        else:
+            raise ValueError(layout)
+        return self.xr.DataArray(data, dims=self.dims, coords=coords, attrs=dict(attrs))
 
 
 class TrimSpace(_Base):
-    def __init__(self, shape, dtype, spellings, tag="trim", alphabet=None):
-        self.shape, self.dtype, self.spellings = shape, dtype, spellings
+    def __init__(self, shape, dtype, spellings, tag="trim", alphabet=None, layout="C"):
+        self.shape, self.dtype, self.spellings, self.layout = shape, dtype, spellings, layout
         self.alphabet = alphabet or (KEEP_F if dtype[0] == "f" else KEEP_I)
         self.trimx = tag == "trimx"
-        self.name = "%s_%dx%d_%s" % (tag, shape[0], shape[1], dtype)
+        self.name = "%s_%dx%d_%s" % (tag, shape[0], shape[1], dtype) + ("" if layout == "C" else "_" + layout)
+        self.ktag = "" if layout == "C" else "|layout=" + layout
         self.nr = len(self.alphabet) ** (shape[0] * shape[1])
         self.size = self.nr * len(spellings)
         self.weight = shape[0] * shape[1] * (50 if tag == "trim_spellings" else 1)
@@ -249,7 +326,7 @@ class TrimSpace(_Base):
 
     def describe(self, rank):
         a, (label, mk, excl) = self.case(rank)
-        return {"function": "xrspatial.zonal.trim", "raster": a, "values": label,
+        return {"function": "xrspatial.zonal.trim", "raster": a, "values": label, "memory_layout": self.layout,
                 "coords": {k: v for k, (d, v) in make_coords(self.shape[0], self.shape[1], self.dims).items()},
                 "attrs": self.attrs}
 
@@ -259,7 +336,7 @@ class TrimSpace(_Base):
             ri, si = divmod(rank, ns)
             if self._cache[0] != ri:
                 a = grid(ri, self.shape, self.alphabet, self.dtype)
-                self._cache = (ri, (a, self.da(a.copy(), self.attrs)))
+                self._cache = (ri, (a, self.da(a, self.attrs, self.layout)))
             a, r = self._cache[1]
             label, mk, excl = self.spellings[si]
             box = bbox(kept_mask(a, excl))
@@ -297,9 +374,9 @@ class TrimSpace(_Base):
                     if label in [x[0] for x in SPELL_HETERO]:       # type-level: fails for every raster
                         sig = "zonal.trim|values=%s|%s" % (label, problems[0][0][7:])
                 out.count("violations:" + kind)
-                out.violation(rank, "%s|values=%s|dtype=%s|raster=%s" % (kind, label, self.dtype, lit(a)),
-                              "trim(values=%s) on %s raster %s: %s; minimal window is rows %d..%d, columns %d..%d"
-                              % (label, self.dtype, lit(a), "; ".join(p[1] for p in problems), t, b, l, rr),
+                out.violation(rank, "%s|values=%s|dtype=%s|raster=%s%s" % (kind, label, self.dtype, lit(a), self.ktag),
+                              "trim(values=%s) on %s raster %s%s: %s; minimal window is rows %d..%d, columns %d..%d"
+                              % (label, self.dtype, lit(a), self.ktag, "; ".join(p[1] for p in problems), t, b, l, rr),
                               case=self.describe(rank), sig=sig, observed=res if o is not None else problems[0][1],
                               expected={"window_rows": [t, b], "window_columns": [l, rr], "cells": a[t:b + 1, l:rr + 1]})
             elif out.want_sample() and nontrivial and si > 1:
@@ -307,10 +384,15 @@ class TrimSpace(_Base):
 
 
 class CropSpace(_Base):
-    def __init__(self, shape, zdtype, vdtype, spell):
-        self.shape, self.zdtype, self.vdtype, self.spellings = shape, zdtype, vdtype, ID_SPELLINGS[spell]
+    def __init__(self, shape, zdtype, vdtype, spell, layouts=("C", "C"), alphabet=(0, 1, 2)):
+        self.shape, self.zdtype, self.vdtype, self.spellings = shape, zdtype, vdtype, id_spellings(alphabet, spell)
+        self.zlay, self.vlay, self.alphabet = layouts[0], layouts[1], tuple(alphabet)
         self.name = "crop_%dx%d_zones_%s_values_%s" % (shape[0], shape[1], zdtype, vdtype)
-        self.nr = 3 ** (shape[0] * shape[1])
+        self.ktag = ""
+        if tuple(layouts) != ("C", "C"):
+            self.name += "_z%s_v%s" % tuple(layouts)
+            self.ktag = "|layout=%s/%s" % tuple(layouts)
+        self.nr = len(self.alphabet) ** (shape[0] * shape[1])
         self.size = self.nr * len(self.spellings)
         self.weight = shape[0] * shape[1]
         self.grain = self.size if self.size <= SMALL else None
@@ -322,12 +404,13 @@ class CropSpace(_Base):
 
     def setup(self):
         super().setup()
-        self.v = self.da(self.values.copy(), self.attrs)
+        self.v = self.da(self.values, self.attrs, self.vlay)
 
     def describe(self, rank):
         ri, si = divmod(rank, len(self.spellings))
-        return {"function": "xrspatial.zonal.crop", "zones": grid(ri, self.shape, (0, 1, 2), self.zdtype),
+        return {"function": "xrspatial.zonal.crop", "zones": grid(ri, self.shape, self.alphabet, self.zdtype),
                 "values": self.values, "zones_ids": self.spellings[si][0],
+                "memory_layout_zones": self.zlay, "memory_layout_values": self.vlay,
                 "coords": {k: v for k, (d, v) in make_coords(self.shape[0], self.shape[1], self.dims).items()},
                 "attrs": self.attrs}
 
@@ -336,8 +419,8 @@ class CropSpace(_Base):
         for rank in range(lo, hi):
             ri, si = divmod(rank, ns)
             if self._cache[0] != ri:
-                z = grid(ri, self.shape, (0, 1, 2), self.zdtype)
-                self._cache = (ri, (z, self.da(z.copy(), self.zattrs)))
+                z = grid(ri, self.shape, self.alphabet, self.zdtype)
+                self._cache = (ri, (z, self.da(z, self.zattrs, self.zlay)))
             z, zr = self._cache[1]
             label, mk, ids = self.spellings[si]
             box = bbox(member_mask(z, ids))
@@ -359,7 +442,8 @@ class CropSpace(_Base):
             if problems:
                 kind = "crop|%s" % problems[0][0]
                 out.count("violations:" + kind)
-                out.violation(rank, "%s|zones_ids=%s|zones=%s:%s|values=%s" % (kind, label, self.zdtype, lit(z), self.vdtype),
+                out.violation(rank, "%s|zones_ids=%s|zones=%s:%s|values=%s%s" % (kind, label, self.zdtype, lit(z), self.vdtype,
+                                                                                self.ktag),
                               "crop(zones_ids=%s) on %s zones %s: %s; minimal window is rows %d..%d, columns %d..%d"
                               % (label, self.zdtype, lit(z), "; ".join(p[1] for p in problems), t, b, l, rr),
                               case=self.describe(rank), observed=res if o is not None else problems[0][1],
@@ -370,8 +454,9 @@ class CropSpace(_Base):
 
 
 def build(tier):
-    sp = [TrimSpace(s, d, trim_spellings(d, w), tag="trim" if w == "full" else "trimcore") for s, d, w in TRIM[tier]]
+    sp = [TrimSpace(s, d, trim_spellings(d, w), tag={"full": "trim", "core": "trimcore", "two": "trim2l"}[w],
+                    alphabet=trim_alphabet(d, w), layout=lay) for s, d, w, lay in TRIM[tier]]
     sp += [TrimSpace(s, d, SPELL_HETERO, tag="trim_spellings") for s, d in HETERO[tier]]
     sp += [TrimSpace(s, d, TRIMX_VALUES[d][1], tag="trimx", alphabet=TRIMX_VALUES[d][0]) for s, d in TRIMX[tier]]
-    sp += [CropSpace(s, zd, vd, spell) for s, zd, vd, spell in CROP[tier]]
+    sp += [CropSpace(s, zd, vd, spell, lay, al) for s, zd, vd, spell, lay, al in CROP[tier]]
     return sp
